@@ -6,8 +6,8 @@
 #include "world.h"
 #include "peek.h"
 
-enum { D_NONE = 0, D_UNKNOWN_CA, D_EXPIRED, D_NOT_YET_VALID, D_NAME, D_FORGED_CERT, D_POP_WRONG_SIG, D_POP_OTHER_DATA, D_POP_OMITTED, D_FORGED_COPIED_SIG, D_N };
-static const char *D_NAME_S[] = { "none", "unknown_ca", "expired", "not_yet_valid", "name_mismatch", "forged_cert_sig", "pop_wrong_signature", "pop_signature_over_other_data", "pop_message_omitted", "forged_cert_with_copied_root_signature" };
+enum { D_NONE = 0, D_UNKNOWN_CA, D_EXPIRED, D_NOT_YET_VALID, D_NAME, D_FORGED_CERT, D_POP_WRONG_SIG, D_POP_OTHER_DATA, D_POP_OMITTED, D_FORGED_COPIED_SIG, D_RESUME_UNAUTH, D_N };
+static const char *D_NAME_S[] = { "none", "unknown_ca", "expired", "not_yet_valid", "name_mismatch", "forged_cert_sig", "pop_wrong_signature", "pop_signature_over_other_data", "pop_message_omitted", "forged_cert_with_copied_root_signature", "resumes_session_made_without_client_auth" };
 static const char *CB_S[] = { "none", "strict", "allow_all", "allow_one" };
 
 struct KexChoice { int ver; uint16_t suite; int kind; bool has_sig_pop; };   // has_sig_pop: the server signs something (SKE / CertificateVerify)
@@ -37,7 +37,8 @@ static Plan c04_gen(uint64_t seed, int tier, uint64_t index) {
     int vsrv = r.chance(1, 3);
     int defect = (int) r.below(D_N);
     if (is_pop(defect) && !vsrv && !KEX[kex].has_sig_pop) { defect = D_FORGED_CERT; }
-    if (defect == D_NAME && vsrv) { defect = D_EXPIRED; }          // servers do not match client names
+    if (defect == D_NAME && vsrv) { defect = D_EXPIRED; }
+    if (defect == D_RESUME_UNAUTH && !vsrv) { defect = D_FORGED_COPIED_SIG; }          // servers do not match client names
     int cb = (int) r.below(4);
     if (vsrv && cb == CB_NONE) { cb = CB_STRICT; }                 // a server without a callback does not request a client certificate at all
     Plan p = make_plan(kex, vsrv, defect, cb, ALERTS[r.below(7)], seed);
@@ -56,6 +57,7 @@ static std::vector<Plan> c04_fixed(int tier) {
             for (int d = 0; d < D_N; d++) {
                 if (is_pop(d) && !vsrv && !KEX[kex].has_sig_pop) { continue; }
                 if (d == D_NAME && vsrv) { continue; }
+                if (d == D_RESUME_UNAUTH && !vsrv) { continue; }
                 for (int cb = 0; cb < 4; cb++) {
                     if (vsrv && cb == CB_NONE) { continue; }
                     if (cb == CB_ALLOW_ONE) {
@@ -92,6 +94,7 @@ static RunResult c04_exec(const Plan &p) {
         // every test certificate is issued for DNS:localhost / IP:127.0.0.1; expected names that are NOT that name, from unrelated to near misses
         static const char *WRONG[] = { "wrong-host.example.org", "localhost.attacker.example", "LOCALHOST.corp.example.com", "localhostx", "xlocalhost", "localhos", "local", "a.localhost",
                                        "localhost.localhost", "127.0.0.10", "27.0.0.1", "localhost-1", "l0calhost" };
+        // (names psX509ValidateGeneralName rejects - "xn--...", "a..b" - never reach validation: matrixSslNewClientSession refuses them)
         std::string wrong_name = WRONG[(uint64_t) p.get("name_var") % (sizeof WRONG / sizeof WRONG[0])];
         if (defect == D_NAME) { pc.expected_name = wrong_name; }
         else if (!vsrv && p.get("right_name")) { pc.expected_name = p.get("right_name") == 2 ? "LOCALHOST" : "localhost"; }   // control: the right name (any case) must not fail a handshake
@@ -111,7 +114,42 @@ static RunResult c04_exec(const Plan &p) {
                 int rc = 0; w.skeys = load_keys(s, &rc);
                 if (!w.skeys) { res.harness_error = true; res.detail = "server key reload failed"; }
             }
-            if (!res.harness_error && w.connect()) {
+            if (!res.harness_error && defect == D_RESUME_UNAUTH) {
+                // One server process, one session cache, two kinds of server sessions: connection 1 is made on a server session that does NOT
+                // ask for a client certificate (the client proves nothing); connection 2 goes to a server session configured for client
+                // authentication and offers connection 1's session (id / ticket / TLS 1.3 PSK).  It may do a full handshake with client
+                // authentication or fail - it must not complete as a resumption of a session in which no client was ever authenticated.
+                PairCfg p1 = pc; p1.client_auth = false; p1.client_identity = KK_NONE; p1.tickets = (p.get("cb_alert") % 2) == 1 || K.ver == 2;
+                PairCfg p2 = pc; p2.client_identity = KK_NONE; p2.tickets = p1.tickets;      // the client of connection 2 has no certificate at all
+                // a client key set WITHOUT any identity (trusts the server's CA only): this client cannot authenticate, ever
+                KeySpec cks; cks.identity = KK_NONE; cks.ca_mask = 1u << pc.server_identity;
+                vsim_set_node(NODE_CLIENT);
+                sslKeys_t *anon_ckeys = load_keys(cks);
+                vsim_set_node(NODE_HARNESS);
+                if (!anon_ckeys) { res.harness_error = true; res.detail = "anonymous client key set"; }
+                TlsWorld w1; w1.adopt(w.skeys, anon_ckeys ? anon_ckeys : w.ckeys, w.sid, p1);
+                bool ok1 = w1.connect() && w1.handshake();
+                if (ok1) { Bytes x = tagged_payload(0, 1, 20); w1.cli->app_send(x.data(), x.size()); w1.pump(); w1.cli->app_close(); w1.pump(); }
+                w1.close_sessions(); w1.teardown();
+                std::string ctx = std::string(ver_name(pc.version)) + ",server," + D_NAME_S[defect] + "," + CB_S[cb] + (p1.tickets ? ",ticket" : ",id");
+                if (!ok1) { res.harness_error = true; res.detail = "first (no client auth) connection failed: " + ctx; }
+                else {
+                    TlsWorld w2; w2.adopt(w.skeys, anon_ckeys ? anon_ckeys : w.ckeys, w.sid, p2);
+                    bool ok2 = w2.connect(); if (ok2) { w2.srv->cfg.cb_allow_alert = (int) p.get("cb_alert"); w2.handshake(); }
+                    bool completed = ok2 && w2.srv->is_complete(), resumed = completed && w2.srv->is_resumed();
+                    res.count(std::string("outcome.") + D_NAME_S[defect] + (completed ? (resumed ? ".completed_resumed" : ".completed_full") : ".refused"));
+                    bool accepted_by_cb = false; for (size_t i = 0; completed && i < w2.srv->cb_alerts.size(); i++) { if (w2.srv->cb_alerts[i] != 0) { accepted_by_cb = w2.srv->cb_last_ret == 0 || w2.srv->cb_last_ret == SSL_ALLOW_ANON_CONNECTION; } }
+                    if (completed && !accepted_by_cb) {
+                        res.violate("completed_with_defect", ctx, std::string("a server session configured for client authentication completed (") + (resumed ? "as a resumption" : "full handshake") +
+                                    ") with a client that has no certificate: the offered session had been made on a server session that never asked for one (callback calls " + std::to_string(w2.srv->cb_calls) + ")");
+                    }
+                    res.nontrivial = true;
+                    res.fingerprint = mix64(w2.fingerprint(), (uint64_t) (defect * 64 + cb * 8 + vsrv));
+                    res.states.push_back(ctx);
+                    w2.close_sessions(); w2.teardown();
+                }
+                if (anon_ckeys) { vsim_set_node(NODE_CLIENT); matrixSslDeleteKeys(anon_ckeys); vsim_set_node(NODE_HARNESS); }
+            } else if (!res.harness_error && w.connect()) {
                 // allow_one on the server side uses the same alert parameter
                 if (vsrv) { w.srv->cfg.cb_allow_alert = (int) p.get("cb_alert"); }
                 if (defect == D_POP_OMITTED) {
